@@ -1,5 +1,6 @@
 -- Root of the `O2P` library: models, generated facts, property theorems.
 import O2P.Props.C08
+import O2P.Props.C09
 import O2P.Props.C10
 import O2P.Props.C11
 import O2P.Props.C12
